@@ -84,7 +84,7 @@ def gen_history(rng):
             "opseed": rng.getrandbits(32)}
 
 
-def run_history(case, acc):
+def run_history(case, acc, post_edit=None, entry_ops=False, prop="C14"):
     from numba_scfg.core.datastructures.basic_block import RegionBlock, SyntheticBranch
     from ..oracles.paths import name_walk
 
@@ -117,9 +117,25 @@ def run_history(case, acc):
             for t in scfg.graph[p].jump_targets:
                 if t in scfg.graph and t not in U:
                     U.append(t)
-        op = rng.choice(["insert", "insert", "control", "control", "join_returns", "jte"])
+        op = rng.choice(["insert", "insert", "control", "control", "join_returns", "jte"]
+                        + (["entry", "entry"] if entry_ops else []))
         try:
-            if op == "insert":
+            if op == "entry":
+                # a new entry block in front of the current head (public API)
+                from numba_scfg.core.datastructures.basic_block import BasicBlock, SyntheticFill
+                from ..oracles.itercheck import level_head
+
+                heads = level_head(scfg)
+                if len(heads) != 1:
+                    continue
+                new = scfg.name_gen.new_block_name("synth_fill")
+                if rng.random() < 0.5:
+                    scfg.insert_block(new, [], [heads[0]], SyntheticFill)
+                    ops_done.append(["insert_block", new, [], [heads[0]], "SyntheticFill"])
+                else:
+                    scfg.add_block(BasicBlock(name=new, _jump_targets=(heads[0],)))
+                    ops_done.append(["add_block", new, [heads[0]]])
+            elif op == "insert":
                 ty, kind = rng.choice(_types())
                 exits_only = all(not scfg.graph[p]._jump_targets for p in P)
                 if U and rng.random() < 0.85:
@@ -168,7 +184,9 @@ def run_history(case, acc):
             ctx.violation("C14", "edit_raised", {"op": op, "exc": key, "P": P, "U": U})
             ops_done.append([op, "raised", key["type"]])
             break
-        if mode == "pp" and tr.flat:
+        if post_edit is not None:
+            post_edit(ctx, scfg)
+        if mode == "pp" and tr.flat and prop == "C14" and not any(o[0] == "add_block" for o in ops_done):
             def walk():
                 try:
                     return name_walk(tr.orig, scfg, 300000)
